@@ -8,6 +8,7 @@
 (*   ops         the operation counter when the run ended (or was cut)     *)
 (*   dispatches, rolls   the work actually done                            *)
 (*   maxExcess   max over all dispatches of work - 2*ops at that moment    *)
+(*   maxExcess1  max over all dispatches of work - ops at that moment      *)
 (*   monotone    the counter never decreased between dispatches            *)
 (*   expect      the value of the FULL program where the generator knows   *)
 (* Budget!Accounting, Monotone, FailClosed, BoundedWork, Terminates are    *)
@@ -35,6 +36,9 @@ CheckBudget(e) ==
   \* Budget!BoundedWork and Accounting (also for runs that were cut short: the meters are read at the cut)
   \cup Tag(e.limit > 0 => 2 * work <= 3 * e.limit + 2 * C, "work-not-bounded-by-budget")
   \cup Tag(e.maxExcess <= C, "work-not-accounted")
+  \* exact accounting (since the Fate dice and the D100 of CoC rolls are charged): at every dispatch, instructions dispatched plus dice
+  \* rolled do not exceed the counter - every instruction and every die has been charged before it happens
+  \cup Tag(e.maxExcess1 <= 0, "instruction-or-die-not-charged")
   \cup Tag(e.monotone, "counter-decreased")
   \* ... and the counter the host reads AFTER the run accounts for the work as well (an evaluation that ends in an error inside a
   \* function or computed value must hand its count back)
